@@ -5,27 +5,32 @@
 mod engine;
 
 use std::cell::RefCell;
-use std::collections::{BTreeMap, BTreeSet};
+use std::collections::{BTreeMap, BTreeSet, VecDeque};
+use std::ops::Bound;
 use std::rc::Rc;
 use std::sync::Arc;
 
 use trustfall_core::interpreter::execution::interpret_ir;
 use trustfall_core::interpreter::{
-    Adapter, AsVertex, ContextIterator, ContextOutcomeIterator, EdgeInfo, ResolveEdgeInfo, ResolveInfo, VertexInfo,
+    Adapter, CandidateValue, verif_dynamic, AsVertex, ContextIterator, ContextOutcomeIterator, EdgeInfo, ResolveEdgeInfo, ResolveInfo, VertexInfo,
     VertexIterator,
 };
-use trustfall_core::ir::{Argument, EdgeParameters, FieldRef, FieldValue, IRQuery, IRQueryComponent};
+use trustfall_core::ir::{
+    Argument, EdgeParameters, FieldRef, FieldValue, IRQuery, IRQueryComponent, IndexedQuery, Operation,
+};
 
-use crate::engine::adapter::{CallKind, Info, TableAdapter, Vtx};
+use crate::engine::adapter::{CallKind, Info, TableAdapter, Vtx, params_text};
 use crate::engine::common::*;
 use crate::engine::data_gen::DataTable;
-use crate::engine::ir_sexp::{ir_to_sexp, op_parts, vid_num};
+use crate::engine::ir_sexp::{eid_num, ir_to_sexp, op_parts, vid_num};
+use crate::engine::schema_gen::GenSchema;
 use crate::engine::run::{Answer, args_error_names, compile, execute, load_schema, prepare, real_args};
 use crate::engine::query_gen::{Dir, Field, GenQuery, Node};
 use crate::engine::worlds::{GenStats, World, WorldKnobs, compile_query};
 use tfharness::framework::*;
 use tfharness::rng::Rng;
 use tfharness::sexp::{Sexp, hex, unhex};
+use tfharness::values::{random_value, sexp_to_value, value_to_sexp};
 
 
 // ------------------------------------------------------------------------------------------------
@@ -438,6 +443,823 @@ impl Prop for C05 {
     }
 }
 
+// ------------------------------------------------------------------------------------------------
+// C04 — pruning data with the engine's query hints never changes results
+
+type Cand = CandidateValue<FieldValue>;
+
+fn bound_to_sexp(b: Bound<&FieldValue>) -> Sexp {
+    match b {
+        Bound::Unbounded => Sexp::atom("unb"),
+        Bound::Included(v) => Sexp::call("inc", vec![value_to_sexp(v)]),
+        Bound::Excluded(v) => Sexp::call("exc", vec![value_to_sexp(v)]),
+    }
+}
+
+/// agent-c06's candidate syntax (`Driver/Cand.lean`)
+fn cand_to_sexp(c: &Cand) -> Sexp {
+    match c {
+        CandidateValue::Impossible => Sexp::atom("imp"),
+        CandidateValue::All => Sexp::atom("all"),
+        CandidateValue::Single(v) => Sexp::call("single", vec![value_to_sexp(v)]),
+        CandidateValue::Multiple(vs) => Sexp::call("multi", vs.iter().map(value_to_sexp).collect()),
+        CandidateValue::Range(r) => Sexp::call(
+            "range",
+            vec![bound_to_sexp(r.start_bound()), bound_to_sexp(r.end_bound()), Sexp::atom(if r.null_included() { "1" } else { "0" })],
+        ),
+        _ => unreachable!("non_exhaustive CandidateValue variant"),
+    }
+}
+
+fn parse_bound(s: &Sexp) -> Option<Bound<FieldValue>> {
+    if s.as_atom() == Some("unb") {
+        return Some(Bound::Unbounded);
+    }
+    match s.as_call()? {
+        ("inc", [v]) => Some(Bound::Included(sexp_to_value(v)?)),
+        ("exc", [v]) => Some(Bound::Excluded(sexp_to_value(v)?)),
+        _ => None,
+    }
+}
+
+fn parse_cand(s: &Sexp) -> Option<Cand> {
+    match s.as_atom() {
+        Some("imp") => return Some(CandidateValue::Impossible),
+        Some("all") => return Some(CandidateValue::All),
+        Some(_) => return None,
+        None => {}
+    }
+    match s.as_call()? {
+        ("single", [v]) => Some(CandidateValue::Single(sexp_to_value(v)?)),
+        ("multi", vs) => Some(CandidateValue::Multiple(vs.iter().map(sexp_to_value).collect::<Option<Vec<_>>>()?)),
+        ("range", [s, e, n]) => {
+            let (s, e) = (parse_bound(s)?, parse_bound(e)?);
+            let n = n.as_atom()? == "1";
+            Some(CandidateValue::Range(trustfall_core::interpreter::verif_candidates::range_new(s, e, n)))
+        }
+        _ => None,
+    }
+}
+
+/// Which values a candidate stands for (`Range::contains`, `==`, `Vec::contains`).
+fn cand_mem(c: &Cand, v: &FieldValue) -> bool {
+    match c {
+        CandidateValue::Impossible => false,
+        CandidateValue::All => true,
+        CandidateValue::Single(s) => s == v,
+        CandidateValue::Multiple(vs) => vs.contains(v),
+        CandidateValue::Range(r) => r.contains(v),
+        _ => unreachable!(),
+    }
+}
+
+/// Vid → type name of the IR vertex, for the whole query.
+fn vertex_types(comp: &IRQueryComponent, out: &mut BTreeMap<u64, String>) {
+    for (vid, v) in comp.vertices.iter() {
+        out.insert(vid_num(*vid), v.type_name.to_string());
+    }
+    for f in comp.folds.values() {
+        vertex_types(&f.component, out);
+    }
+}
+
+#[derive(Clone, Copy, PartialEq, Eq, Debug)]
+struct PruneMode {
+    /// use `dynamically_required_property(..).resolve(..)` at `resolve_neighbors`
+    dynamic: bool,
+    /// additionally apply, at the resolution of a vertex, the hints that the root `ResolveInfo` reports
+    /// for that Vid by look-ahead navigation (`edges_with_name(..).destination()` chains)
+    lookahead: bool,
+}
+
+#[derive(Default, Debug, Clone)]
+struct PruneStats {
+    static_dropped: usize,
+    mandatory_dropped: usize,
+    dynamic_dropped: usize,
+    lookahead_dropped: usize,
+    dynamic_resolutions: usize,
+}
+
+struct PruneShared {
+    schema: Arc<GenSchema>,
+    table: DataTable,
+    vtypes: BTreeMap<u64, String>,
+    mode: PruneMode,
+    stats: RefCell<PruneStats>,
+    /// Vid → (property, candidate) / mandatory (edge name, params text) pairs claimed by root look-ahead
+    lookahead: RefCell<BTreeMap<u64, (Vec<(String, Cand)>, Vec<(String, String)>)>>,
+    ir: IRQuery,
+}
+
+impl PruneShared {
+    fn prop_value(&self, v: u32, p: &str) -> FieldValue {
+        match self.table.vertices.get(&v) {
+            None => FieldValue::Null,
+            Some((ty, props)) => {
+                if p == "__typename" {
+                    FieldValue::from(ty.as_str())
+                } else {
+                    props.get(p).cloned().unwrap_or(FieldValue::Null)
+                }
+            }
+        }
+    }
+    fn neighbors(&self, v: u32, edge: &str, params: &EdgeParameters) -> &[u32] {
+        self.table.adj.get(&(v, edge.to_string(), params_text(params))).map(|x| x.as_slice()).unwrap_or(&[])
+    }
+    /// the properties and the edge names of the IR vertex the hint object describes
+    fn names_of<V: VertexInfo>(&self, info: &V) -> (Vec<String>, Vec<String>) {
+        let ty = self.vtypes.get(&vid_num(info.vid())).cloned().unwrap_or_default();
+        match self.schema.ty(&ty) {
+            None => (vec![], vec![]),
+            Some(t) => {
+                let mut props: Vec<String> = t.props.iter().map(|(p, _)| p.clone()).collect();
+                props.push("__typename".to_string());
+                (props, t.edges.iter().map(|e| e.name.clone()).collect())
+            }
+        }
+    }
+    /// Does data vertex `v` satisfy everything the hint object `info` reports: the static candidates of
+    /// all its properties, and — for every edge reported mandatory — a neighbour that satisfies the
+    /// hints of the edge's `destination()` (look-ahead)?
+    fn keep<V: VertexInfo>(&self, info: &V, v: u32, fuel: usize) -> bool {
+        let (props, edges) = self.names_of(info);
+        for p in &props {
+            if let Some(c) = info.statically_required_property(p) {
+                if !cand_mem(&c, &self.prop_value(v, p)) {
+                    self.stats.borrow_mut().static_dropped += 1;
+                    return false;
+                }
+            }
+        }
+        if fuel == 0 {
+            return true;
+        }
+        for name in &edges {
+            let infos: Vec<EdgeInfo> = info.mandatory_edges_with_name(name).collect();
+            for ei in infos {
+                let ok = self.neighbors(v, name, ei.parameters()).iter().any(|u| self.keep(ei.destination(), *u, fuel - 1));
+                if !ok {
+                    self.stats.borrow_mut().mandatory_dropped += 1;
+                    return false;
+                }
+            }
+        }
+        true
+    }
+    /// the hints the root's look-ahead claims for Vid `vid`, applied to data vertex `v`
+    fn keep_lookahead(&self, vid: u64, v: u32) -> bool {
+        if !self.mode.lookahead {
+            return true;
+        }
+        let la = self.lookahead.borrow();
+        let Some((cands, mands)) = la.get(&vid) else { return true };
+        for (p, c) in cands {
+            if !cand_mem(c, &self.prop_value(v, p)) {
+                self.stats.borrow_mut().lookahead_dropped += 1;
+                return false;
+            }
+        }
+        for (name, ptext) in mands {
+            if self.table.adj.get(&(v, name.clone(), ptext.clone())).is_none_or(|n| n.is_empty()) {
+                self.stats.borrow_mut().lookahead_dropped += 1;
+                return false;
+            }
+        }
+        true
+    }
+    /// record what the hint object reached by navigation claims for its Vid, then walk on
+    fn collect_lookahead<V: VertexInfo>(&self, info: &V, comp: &IRQueryComponent, is_root: bool) {
+        let vid = info.vid();
+        if !is_root {
+            let (props, edges) = self.names_of(info);
+            let mut cands = vec![];
+            for p in &props {
+                if let Some(c) = info.statically_required_property(p) {
+                    cands.push((p.clone(), c));
+                }
+            }
+            let mut mands = vec![];
+            for name in &edges {
+                for ei in info.mandatory_edges_with_name(name) {
+                    mands.push((name.clone(), params_text(ei.parameters())));
+                }
+            }
+            self.lookahead.borrow_mut().insert(vid_num(vid), (cands, mands));
+        }
+        let mut names: Vec<Arc<str>> = vec![];
+        for e in comp.edges.values() {
+            if e.from_vid == vid && !names.contains(&e.edge_name) {
+                names.push(e.edge_name.clone());
+            }
+        }
+        for f in comp.folds.values() {
+            if f.from_vid == vid && !names.contains(&f.edge_name) {
+                names.push(f.edge_name.clone());
+            }
+        }
+        for name in names {
+            let infos: Vec<EdgeInfo> = info.edges_with_name(&name).collect();
+            for ei in infos {
+                let sub: &IRQueryComponent = match comp.folds.get(&ei.eid()) {
+                    Some(fold) => &fold.component,
+                    None => comp,
+                };
+                self.collect_lookahead(ei.destination(), sub, false);
+            }
+        }
+    }
+}
+
+/// The adapter of the property: the table adapter that *uses* the hints to discard vertices.
+#[derive(Clone)]
+struct PruningAdapter {
+    inner: TableAdapter,
+    sh: Rc<PruneShared>,
+}
+
+const LOOKAHEAD_FUEL: usize = 8;
+
+impl Adapter<'static> for PruningAdapter {
+    type Vertex = Vtx;
+
+    fn resolve_starting_vertices(
+        &self,
+        edge_name: &Arc<str>,
+        parameters: &EdgeParameters,
+        resolve_info: &ResolveInfo,
+    ) -> VertexIterator<'static, Self::Vertex> {
+        if self.sh.mode.lookahead {
+            self.sh.collect_lookahead(resolve_info, &self.sh.ir.root_component, true);
+        }
+        let sh = self.sh.clone();
+        let info = resolve_info.clone();
+        Box::new(
+            self.inner
+                .resolve_starting_vertices(edge_name, parameters, resolve_info)
+                .filter(move |v| sh.keep(&info, v.0, LOOKAHEAD_FUEL)),
+        )
+    }
+
+    fn resolve_property<V: AsVertex<Self::Vertex> + 'static>(
+        &self,
+        contexts: ContextIterator<'static, V>,
+        type_name: &Arc<str>,
+        property_name: &Arc<str>,
+        resolve_info: &ResolveInfo,
+    ) -> ContextOutcomeIterator<'static, V, FieldValue> {
+        self.inner.resolve_property(contexts, type_name, property_name, resolve_info)
+    }
+
+    fn resolve_neighbors<V: AsVertex<Self::Vertex> + 'static>(
+        &self,
+        contexts: ContextIterator<'static, V>,
+        _type_name: &Arc<str>,
+        edge_name: &Arc<str>,
+        parameters: &EdgeParameters,
+        resolve_info: &ResolveEdgeInfo,
+    ) -> ContextOutcomeIterator<'static, V, VertexIterator<'static, Self::Vertex>> {
+        let dest = resolve_info.destination();
+        let dest_vid = vid_num(dest.vid());
+        // per-context candidates from `dynamically_required_property(p).resolve(adapter, contexts)`,
+        // one resolution stage per property; the candidates travel in a side queue (every stage is 1:1)
+        let queue: Rc<RefCell<VecDeque<Vec<(String, Cand)>>>> = Rc::new(RefCell::new(VecDeque::new()));
+        let mut stream: ContextIterator<'static, V> = {
+            let q = queue.clone();
+            Box::new(contexts.map(move |ctx| {
+                q.borrow_mut().push_back(vec![]);
+                ctx
+            }))
+        };
+        if self.sh.mode.dynamic {
+            let (props, _) = self.sh.names_of(&dest);
+            for p in props {
+                if let Some(drv) = dest.dynamically_required_property(&p) {
+                    self.sh.stats.borrow_mut().dynamic_resolutions += 1;
+                    let q = queue.clone();
+                    let resolved = drv.resolve(self, stream);
+                    stream = Box::new(resolved.map(move |(ctx, cand)| {
+                        q.borrow_mut().back_mut().expect("entry of the context in flight").push((p.clone(), cand));
+                        ctx
+                    }));
+                }
+            }
+        }
+        let sh = self.sh.clone();
+        let edge = edge_name.to_string();
+        let params = parameters.clone();
+        Box::new(stream.map(move |ctx| {
+            let cands = queue.borrow_mut().pop_front().expect("entry of the context in flight");
+            let nbrs: VertexIterator<'static, Vtx> = match ctx.active_vertex::<Vtx>() {
+                None => Box::new(std::iter::empty()),
+                Some(v) => {
+                    let kept: Vec<Vtx> = sh
+                        .neighbors(v.0, &edge, &params)
+                        .iter()
+                        .copied()
+                        .filter(|u| sh.keep(&dest, *u, LOOKAHEAD_FUEL))
+                        .filter(|u| {
+                            let ok = cands.iter().all(|(p, c)| cand_mem(c, &sh.prop_value(*u, p)));
+                            if !ok {
+                                sh.stats.borrow_mut().dynamic_dropped += 1;
+                            }
+                            ok
+                        })
+                        .filter(|u| sh.keep_lookahead(dest_vid, *u))
+                        .map(Vtx)
+                        .collect();
+                    Box::new(kept.into_iter())
+                }
+            };
+            (ctx, nbrs)
+        }))
+    }
+
+    fn resolve_coercion<V: AsVertex<Self::Vertex> + 'static>(
+        &self,
+        contexts: ContextIterator<'static, V>,
+        type_name: &Arc<str>,
+        coerce_to_type: &Arc<str>,
+        resolve_info: &ResolveInfo,
+    ) -> ContextOutcomeIterator<'static, V, bool> {
+        self.inner.resolve_coercion(contexts, type_name, coerce_to_type, resolve_info)
+    }
+}
+
+/// One request's query, ready to run plain or pruned.
+struct Loaded {
+    p: crate::engine::run::Prepared,
+    q: Arc<IndexedQuery>,
+    args: BTreeMap<String, FieldValue>,
+    text: String,
+}
+
+fn load5(args: &[Sexp]) -> Option<Result<Loaded, String>> {
+    let r = parse_request(args)?;
+    let p = prepare(r.schema, r.data, &r.text)?;
+    let q = match &p.query {
+        Err(names) => return Some(Err(Answer::FrontendErr(names.clone()).render())),
+        Ok(q) => q.clone(),
+    };
+    if ir_to_sexp(&q.ir_query) != *r.fourth {
+        return Some(Err("(ir-mismatch)".to_string()));
+    }
+    Some(Ok(Loaded { p, q, args: r.args, text: r.text }))
+}
+
+fn run_pruned(l: &Loaded, mode: PruneMode) -> (Answer, PruneStats) {
+    let mut vtypes = BTreeMap::new();
+    vertex_types(&l.q.ir_query.root_component, &mut vtypes);
+    let sh = Rc::new(PruneShared {
+        schema: l.p.schema.gen_schema.clone(),
+        table: l.p.table.clone(),
+        vtypes,
+        mode,
+        stats: RefCell::new(PruneStats::default()),
+        lookahead: RefCell::new(BTreeMap::new()),
+        ir: l.q.ir_query.clone(),
+    });
+    let adapter = PruningAdapter { inner: l.p.adapter(), sh: sh.clone() };
+    let answer = execute(Arc::new(adapter), l.q.clone(), &l.args);
+    let stats = sh.stats.borrow().clone();
+    (answer, stats)
+}
+
+// ---- correspondence: what the hint objects report ------------------------------------------------
+
+/// `(static (<prop> <cand>)…) (dyn <prop>…) (mand <eid>…)` of one hint object; `panic` when a hint
+/// method panics.
+fn info_report<V: VertexInfo>(sh: &PruneShared, info: &V) -> Vec<Sexp> {
+    let (mut props, edges) = sh.names_of(info);
+    props.sort();
+    let r = guarded(|| {
+        let mut st = vec![];
+        let mut dy = vec![];
+        for p in &props {
+            if let Some(c) = info.statically_required_property(p) {
+                st.push(Sexp::list(vec![Sexp::atom(p.clone()), cand_to_sexp(&c)]));
+            }
+            if info.dynamically_required_property(p).is_some() {
+                dy.push(Sexp::atom(p.clone()));
+            }
+        }
+        let mut eids: Vec<u64> = vec![];
+        for name in &edges {
+            for ei in info.mandatory_edges_with_name(name) {
+                eids.push(eid_num(ei.eid()));
+            }
+        }
+        eids.sort();
+        vec![
+            Sexp::call("static", st),
+            Sexp::call("dyn", dy),
+            Sexp::call("mand", eids.into_iter().map(|e| Sexp::atom(e.to_string())).collect()),
+        ]
+    });
+    r.unwrap_or_else(|_| vec![Sexp::atom("panic")])
+}
+
+fn walk_reports<V: VertexInfo>(sh: &PruneShared, info: &V, comp: &IRQueryComponent, out: &mut BTreeMap<u64, Vec<Sexp>>) {
+    let vid = info.vid();
+    out.insert(vid_num(vid), info_report(sh, info));
+    let mut names: Vec<Arc<str>> = vec![];
+    for e in comp.edges.values() {
+        if e.from_vid == vid && !names.contains(&e.edge_name) {
+            names.push(e.edge_name.clone());
+        }
+    }
+    for f in comp.folds.values() {
+        if f.from_vid == vid && !names.contains(&f.edge_name) {
+            names.push(f.edge_name.clone());
+        }
+    }
+    for name in names {
+        let Ok(infos) = guarded(|| info.edges_with_name(&name).collect::<Vec<EdgeInfo>>()) else {
+            continue;
+        };
+        for ei in infos {
+            let sub: &IRQueryComponent = match comp.folds.get(&ei.eid()) {
+                Some(fold) => &fold.component,
+                None => comp,
+            };
+            walk_reports(sh, ei.destination(), sub, out);
+        }
+    }
+}
+
+fn shared_for(schema: Arc<GenSchema>, table: DataTable, ir: &IRQuery) -> PruneShared {
+    let mut vtypes = BTreeMap::new();
+    vertex_types(&ir.root_component, &mut vtypes);
+    PruneShared {
+        schema,
+        table,
+        vtypes,
+        mode: PruneMode { dynamic: false, lookahead: false },
+        stats: RefCell::new(PruneStats::default()),
+        lookahead: RefCell::new(BTreeMap::new()),
+        ir: ir.clone(),
+    }
+}
+
+/// `(hints <schema> <query text hex> <ir> <args>)` → `(hints (v <vid> (static …) (dyn …) (mand …))…)`:
+/// what the `ResolveInfo` of `resolve_starting_vertices` reports for the root, and what the
+/// `NeighborInfo`s reached from it by `edges_with_name(..).destination()` report for every other Vid.
+fn eval_hints(args: &[Sexp]) -> Option<String> {
+    let [schema, text, ir, qargs] = args else { return None };
+    let text = String::from_utf8(unhex(text.as_atom()?)?).ok()?;
+    let qargs = crate::engine::ir_sexp::args_from_sexp(qargs)?;
+    let schema = load_schema(schema)?;
+    let q = match compile(&schema.real, &text) {
+        Err(names) => return Some(Answer::FrontendErr(names).render()),
+        Ok(q) => q,
+    };
+    if ir_to_sexp(&q.ir_query) != *ir {
+        return Some("(ir-mismatch)".to_string());
+    }
+    let captured: Rc<RefCell<Option<String>>> = Rc::new(RefCell::new(None));
+    let cap = captured.clone();
+    let sh = shared_for(schema.gen_schema.clone(), DataTable::default(), &q.ir_query);
+    let on_call: OnCall = Rc::new(move |kind, _ty, _name, info: Info<'_>| {
+        if kind != CallKind::Start {
+            return;
+        }
+        if let Info::Vertex(ri) = info {
+            let mut out = BTreeMap::new();
+            walk_reports(&sh, ri, &sh.ir.root_component, &mut out);
+            let items: Vec<Sexp> = out
+                .into_iter()
+                .map(|(vid, mut rep)| {
+                    let mut l = vec![Sexp::atom(vid.to_string())];
+                    l.append(&mut rep);
+                    Sexp::call("v", l)
+                })
+                .collect();
+            *cap.borrow_mut() = Some(Sexp::call("hints", items).to_string());
+        }
+    });
+    let adapter = Watch { inner: TableAdapter::new(&schema.gen_schema, DataTable::default()), on_call };
+    let res = guarded(|| interpret_ir(Arc::new(adapter), q.clone(), real_args(&qargs)).map(|_| ()));
+    if let Ok(Err(e)) = &res {
+        return Some(Answer::ArgsErr(args_error_names(e)).render());
+    }
+    let out = captured.borrow().clone();
+    Some(out.unwrap_or_else(|| "(no-start-call)".to_string()))
+}
+
+/// the `(eids …)` argument / the Eids whose `resolve_neighbors` call happens in this run
+fn direct_points(l: &Loaded) -> BTreeMap<u64, (u64, Vec<Sexp>)> {
+    let points: Rc<RefCell<BTreeMap<u64, (u64, Vec<Sexp>)>>> = Rc::new(RefCell::new(BTreeMap::new()));
+    let pts = points.clone();
+    let sh = shared_for(l.p.schema.gen_schema.clone(), l.p.table.clone(), &l.q.ir_query);
+    let on_call: OnCall = Rc::new(move |kind, _ty, _name, info: Info<'_>| match (kind, info) {
+        (CallKind::Start, Info::Vertex(ri)) => {
+            pts.borrow_mut().insert(0, (vid_num(ri.vid()), info_report(&sh, ri)));
+        }
+        (CallKind::Neighbors, Info::Edge(ei)) => {
+            let eid = eid_num(ei.eid());
+            if !pts.borrow().contains_key(&eid) {
+                let dest = ei.destination();
+                pts.borrow_mut().insert(eid, (vid_num(dest.vid()), info_report(&sh, &dest)));
+            }
+        }
+        _ => {}
+    });
+    let adapter = Watch { inner: l.p.adapter(), on_call };
+    let _ = guarded(|| execute(Arc::new(adapter), l.q.clone(), &l.args));
+    let out = points.borrow().clone();
+    out
+}
+
+/// `(points <schema> <data> <query text hex> <ir> <args> (eids <eid>…))` →
+/// `(points (start <vid> (static …) (dyn …) (mand …)) (e <eid> <vid> …)…)`: the hints of the hint
+/// object of each resolution point — `ResolveInfo` of the starting vertices, `destination()` of the
+/// `ResolveEdgeInfo` of the listed edges (`(e <eid> -)` when the edge is not resolved in this run).
+fn eval_points(args: &[Sexp]) -> Option<String> {
+    let [a @ .., eids] = args else { return None };
+    let ("eids", eids) = eids.as_call()? else { return None };
+    let l = match load5(a)? {
+        Ok(l) => l,
+        Err(answer) => return Some(answer),
+    };
+    let pts = direct_points(&l);
+    let mut items = vec![];
+    if let Some((vid, rep)) = pts.get(&0) {
+        let mut v = vec![Sexp::atom(vid.to_string())];
+        v.extend(rep.iter().cloned());
+        items.push(Sexp::call("start", v));
+    }
+    for e in eids {
+        let eid: u64 = e.as_atom()?.parse().ok()?;
+        match pts.get(&eid) {
+            Some((vid, rep)) => {
+                let mut v = vec![Sexp::atom(eid.to_string()), Sexp::atom(vid.to_string())];
+                v.extend(rep.iter().cloned());
+                items.push(Sexp::call("e", v));
+            }
+            None => items.push(Sexp::call("e", vec![Sexp::atom(eid.to_string()), Sexp::atom("-")])),
+        }
+    }
+    Some(Sexp::call("points", items).to_string())
+}
+
+fn parse_bare_op(op: &str) -> Option<Operation<(), ()>> {
+    Some(match op {
+        "eq" => Operation::Equals((), ()),
+        "neq" => Operation::NotEquals((), ()),
+        "lt" => Operation::LessThan((), ()),
+        "le" => Operation::LessThanOrEqual((), ()),
+        "gt" => Operation::GreaterThan((), ()),
+        "ge" => Operation::GreaterThanOrEqual((), ()),
+        "one_of" => Operation::OneOf((), ()),
+        _ => return None,
+    })
+}
+
+const TINY_SCHEMA: &str = "(schema (types (A obj)) (sub (A)) (props (A (id (T Int 0)))) (edges (A)) (roots (RA A (T A 1 0) (params))))";
+
+/// `(tag-cand <ctx|count> <op> <nonexistent | (some <value>)> <initial candidate>)` → the candidate
+/// `DynamicallyResolvedValue::resolve` computes for one context (hooks `verif_dynamic`): `ctx` =
+/// `compute_candidate_from_operation` (context-field / imported-tag paths), `count` =
+/// `resolve_fold_specific_field` (the value must be `(u n)`).
+fn eval_tag_cand(args: &[Sexp]) -> Option<String> {
+    let [path, op, tagged, initial] = args else { return None };
+    let op = parse_bare_op(op.as_atom()?)?;
+    let tagged: Option<FieldValue> = if tagged.as_atom() == Some("nonexistent") {
+        None
+    } else {
+        match tagged.as_call()? {
+            ("some", [v]) => Some(sexp_to_value(v)?),
+            _ => return None,
+        }
+    };
+    let initial = parse_cand(initial)?;
+    let c = match path.as_atom()? {
+        "ctx" => verif_dynamic::candidate_from_tagged_value(&op, tagged, initial),
+        "count" => {
+            let count = match tagged {
+                None => None,
+                Some(FieldValue::Uint64(n)) => Some(n as usize),
+                Some(_) => return None,
+            };
+            let schema = load_schema(&Sexp::parse(TINY_SCHEMA)?)?;
+            let q = compile(&schema.real, "{ RA { id @output(name: \"o\") } }").ok()?;
+            verif_dynamic::candidate_from_fold_count(q, Arc::new(BTreeMap::new()), op, count, initial)
+        }
+        _ => return None,
+    };
+    Some(cand_to_sexp(&c).to_string())
+}
+
+fn tag_cand_cases(rng: &mut Rng, n_random: usize) -> Vec<Case> {
+    let v = |s: &str| Sexp::parse(s).unwrap();
+    let values: Vec<Sexp> = [
+        "n", "(i 3)", "(u 3)", "(i 4)", "(i -1)", "(u 0)", "(u 18446744073709551615)", "(i -9223372036854775808)",
+        "(s 61)", "(s -)", "(f 1)", "(b 1)", "(l)", "(l (i 3) (u 4))", "(l n (i 3))", "(l (s 61))",
+    ]
+    .iter()
+    .map(|s| v(s))
+    .collect();
+    let initials: Vec<Sexp> = [
+        "all", "imp", "(range unb unb 0)", "(single (i 3))", "(single n)", "(multi (i 3) (i 4) n)",
+        "(range (inc (i 3)) unb 1)", "(range unb (exc (u 4)) 0)", "(range (exc (i 0)) (inc (i 3)) 1)", "(range (inc (s 61)) unb 0)",
+    ]
+    .iter()
+    .map(|s| v(s))
+    .collect();
+    let ops = ["eq", "neq", "lt", "le", "gt", "ge", "one_of"];
+    let mut out = vec![];
+    let mk = |path: &str, op: &str, tagged: Sexp, init: &Sexp| {
+        Case::new(Sexp::call("tag-cand", vec![Sexp::atom(path), Sexp::atom(op), tagged, init.clone()]), &["tag-cand", &format!("nt:tag-cand:{op}")])
+    };
+    for op in ops {
+        for init in &initials {
+            out.push(mk("ctx", op, Sexp::atom("nonexistent"), init));
+            out.push(mk("count", op, Sexp::atom("nonexistent"), init));
+            for val in &values {
+                out.push(mk("ctx", op, Sexp::call("some", vec![val.clone()]), init));
+            }
+            for n in ["(u 0)", "(u 1)", "(u 3)", "(u 4)"] {
+                out.push(mk("count", op, Sexp::call("some", vec![v(n)]), init));
+            }
+        }
+    }
+    for _ in 0..n_random {
+        let op = ops[rng.below(ops.len())];
+        let val = value_to_sexp(&random_value(rng, 1));
+        let init = &initials[rng.below(initials.len())];
+        out.push(mk("ctx", op, Sexp::call("some", vec![val]), init));
+    }
+    out
+}
+
+/// What the oracle found for one execution.
+struct PruneVerdict {
+    failures: Vec<(String, String)>,
+    stats: PruneStats,
+}
+
+fn rows_summary(a: &Answer) -> String {
+    let s = a.render();
+    if s.len() > 600 { format!("{}…", &s[..600]) } else { s }
+}
+
+/// ORACLE: rows(pruned) == rows(plain), as lists, in three pruning modes.
+fn prune_verdict(l: &Loaded) -> PruneVerdict {
+    let mut failures = vec![];
+    let mut total = PruneStats::default();
+    let plain = match guarded(|| execute(Arc::new(l.p.adapter()), l.q.clone(), &l.args)) {
+        Ok(a) => a,
+        Err(_) => return PruneVerdict { failures, stats: total }, // C09's business
+    };
+    let modes = [
+        ("static", PruneMode { dynamic: false, lookahead: false }),
+        ("dynamic", PruneMode { dynamic: true, lookahead: false }),
+        ("lookahead", PruneMode { dynamic: false, lookahead: true }),
+    ];
+    for (name, mode) in modes {
+        match guarded(|| run_pruned(l, mode)) {
+            Ok((pruned, stats)) => {
+                if name == "dynamic" || name == "static" {
+                    total.dynamic_resolutions += stats.dynamic_resolutions;
+                    total.dynamic_dropped += stats.dynamic_dropped;
+                }
+                if name == "static" {
+                    total.static_dropped += stats.static_dropped;
+                    total.mandatory_dropped += stats.mandatory_dropped;
+                }
+                if name == "lookahead" {
+                    total.lookahead_dropped += stats.lookahead_dropped;
+                }
+                if pruned != plain {
+                    failures.push((
+                        format!("pruning-changes-rows:{name}"),
+                        format!("plain {} | pruned {} | dropped {stats:?}", rows_summary(&plain), rows_summary(&pruned)),
+                    ));
+                    if name == "static" {
+                        break; // the richer modes contain the static pruning
+                    }
+                }
+            }
+            Err(info) => {
+                failures.push((format!("hint-resolution-panic:{}", panic_key(&info)), format!("{info} (mode {name})")));
+            }
+        }
+    }
+    PruneVerdict { failures, stats: total }
+}
+
+#[derive(Default)]
+pub struct C04 {
+    stats: RefCell<GenStats>,
+    variants: RefCell<usize>,
+    totals: RefCell<(usize, PruneStats)>,
+}
+
+impl Prop for C04 {
+    fn id(&self) -> &'static str {
+        "C04"
+    }
+    fn rule(&self) -> &'static str {
+        "the worlds of C01 plus tag-only query variants (see C05). Per accepted query one (hints <schema> <query> <ir> <args>) request: static candidates of every property, presence of a dynamic candidate, and mandatory edges (Eids) reported for EVERY Vid by the root ResolveInfo and the NeighborInfos reached from it by edges_with_name(..).destination() (model: Hints.walkInfos). Per accepted (query, dataset) whose plain run does not panic: one (points ... (eids ..)) request — the same report from the hint object of each resolution point that occurs in the run (ResolveInfo of resolve_starting_vertices, ResolveEdgeInfo::destination() of each resolve_neighbors call; model: VInfo.resolve / ofEdge / ofFold) — and one (prune-exec ...) request answered with the rows of the PLAIN run (model: rows of the Lean Interp under the Lean pruneAdapter, i.e. the open global theorem is tested on every case). A grid of (tag-cand <ctx|count> <op> <tag value|nonexistent> <initial>) requests ties candidateOfTag to compute_candidate_from_operation / resolve_fold_specific_field through the verif_dynamic hooks. ORACLE on the implementation: the PruningAdapter (table adapter that, at every resolve_starting_vertices / resolve_neighbors, drops destination vertices whose property values are outside statically_required_property(p) for any property p of the destination type, outside dynamically_required_property(p).resolve(..) for the context, or that lack — recursively through destination() look-ahead — a neighbour along an edge reported by mandatory_edges_with_name) must return exactly the rows of the plain adapter, as lists, in three modes (static+mandatory; +dynamic; +hints claimed for the Vid by look-ahead from the root); a panic inside hint resolution is a failure keyed by its site. Non-trivial (nt:<why>): the pruned run actually dropped a vertex (nt:dropped-static / -mandatory / -dynamic) or resolved a dynamic candidate (nt:dynamic-resolved)."
+    }
+    fn generate(&self, tier: Tier, rng: &mut Rng) -> Vec<Case> {
+        let (worlds, stats, variants) = hint_worlds(tier, rng);
+        *self.stats.borrow_mut() = stats;
+        *self.variants.borrow_mut() = variants;
+        let mut out = tag_cand_cases(rng, if tier == Tier::Quick { 300 } else { 3000 });
+        for w in &worlds {
+            for q in w.accepted() {
+                let tags = feature_tags(&q.gq.features);
+                let Some(ir) = q.ir.clone() else { continue };
+                let text = Sexp::atom(hex(q.gq.text.as_bytes()));
+                out.push(Case {
+                    request: Sexp::call(
+                        "hints",
+                        vec![w.schema_sexp.clone(), text, ir, crate::engine::ir_sexp::args_to_sexp(&q.gq.args)],
+                    ),
+                    tags: tags.clone(),
+                });
+                for d in 0..w.datasets.len() {
+                    let Some(r) = w.request("prune-exec", d, q) else { continue };
+                    let Some((_, a)) = r.as_call() else { continue };
+                    // pre-run: skip executions whose plain run panics (C09), learn which edges are resolved
+                    let Ok(Some(Ok(l))) = guarded(|| load5(a)) else { continue };
+                    if guarded(|| execute(Arc::new(l.p.adapter()), l.q.clone(), &l.args)).is_err() {
+                        continue;
+                    }
+                    let eids: Vec<Sexp> = direct_points(&l).keys().filter(|e| **e != 0).map(|e| Sexp::atom(e.to_string())).collect();
+                    let mut pa = a.to_vec();
+                    pa.push(Sexp::call("eids", eids));
+                    out.push(Case { request: Sexp::call("points", pa), tags: tags.clone() });
+                    out.push(Case { request: r, tags: tags.clone() });
+                }
+            }
+        }
+        out
+    }
+    fn eval(&self, request: &Sexp) -> Option<String> {
+        let (h, args) = request.as_call()?;
+        match h {
+            "hints" => eval_hints(args),
+            "points" => eval_points(args),
+            "tag-cand" => eval_tag_cand(args),
+            "prune-exec" => eval_exec("exec", args),
+            _ => None,
+        }
+    }
+    fn oracle(&self, evaluated: &[Evaluated]) -> Vec<OracleFailure> {
+        let mut fails = vec![];
+        let mut runs = 0usize;
+        let mut total = PruneStats::default();
+        for e in evaluated {
+            let Some(("prune-exec", args)) = e.request.as_call() else { continue };
+            let Ok(Some(Ok(l))) = guarded(|| load5(args)) else { continue };
+            let v = prune_verdict(&l);
+            runs += 1;
+            total.static_dropped += v.stats.static_dropped;
+            total.mandatory_dropped += v.stats.mandatory_dropped;
+            total.dynamic_dropped += v.stats.dynamic_dropped;
+            total.lookahead_dropped += v.stats.lookahead_dropped;
+            total.dynamic_resolutions += v.stats.dynamic_resolutions;
+            let mut seen = BTreeSet::new();
+            for (key, detail) in v.failures {
+                if seen.insert(key.clone()) {
+                    fails.push(OracleFailure { key, detail: format!("{detail} | query: {}", l.text), requests: vec![e.line.clone()] });
+                }
+            }
+        }
+        *self.totals.borrow_mut() = (runs, total);
+        fails
+    }
+    fn post_tags(&self, e: &Evaluated) -> Vec<String> {
+        let Some(("prune-exec", args)) = e.request.as_call() else { return vec![] };
+        let Ok(Some(Ok(l))) = guarded(|| load5(args)) else { return vec![] };
+        let mut t = vec![];
+        if let Ok((_, st)) = guarded(|| run_pruned(&l, PruneMode { dynamic: true, lookahead: false })) {
+            if st.static_dropped > 0 {
+                t.push("nt:dropped-static".to_string());
+            }
+            if st.mandatory_dropped > 0 {
+                t.push("nt:dropped-mandatory".to_string());
+            }
+            if st.dynamic_dropped > 0 {
+                t.push("nt:dropped-dynamic".to_string());
+            }
+            if st.dynamic_resolutions > 0 {
+                t.push("nt:dynamic-resolved".to_string());
+            }
+        }
+        t
+    }
+    fn extra_stats(&self, _evaluated: &[Evaluated]) -> serde_json::Value {
+        let (runs, t) = self.totals.borrow().clone();
+        serde_json::json!({"generator": self.stats.borrow().to_json(), "tag_only_variants": *self.variants.borrow(),
+            "executions_pruned_in_3_modes": runs, "vertices_dropped_static": t.static_dropped, "vertices_dropped_mandatory": t.mandatory_dropped,
+            "vertices_dropped_dynamic": t.dynamic_dropped, "vertices_dropped_lookahead": t.lookahead_dropped, "dynamic_resolution_stages": t.dynamic_resolutions})
+    }
+}
+
 fn main() {
-    main_for(vec![Box::new(C05::default())]);
+    main_for(vec![Box::new(C05::default()), Box::new(C04::default())]);
 }
